@@ -481,7 +481,7 @@ class DataFile:
 
     # create a new subtitle if SN changes and we are not in cumulative mode
 
-    if tti.SN is not self.last_sn and (tti.CS in (0x00, 0x01) or not self.is_in_cumulative_set):
+    if tti.SN != self.last_sn and (tti.CS in (0x00, 0x01) or not self.is_in_cumulative_set):
 
       self.last_sn =  tti.SN
 
